@@ -3,6 +3,7 @@ package nc
 import (
 	"fmt"
 	"go/token"
+	"go/types"
 	"strings"
 
 	"golang.org/x/tools/go/ssa"
@@ -812,4 +813,452 @@ func (r *Run) c10OffspringLoop(rep *ssa.Function, tm *Termer, newOrg *ssa.Functi
 				"the organism that wraps the champion's copy can reach the next iteration (or a successful return) without having been appended to the list of babies: the unmodified copy is not part of the next generation", path...)
 		}
 	}
+}
+
+// ---- C10.6: write-through facts that know what a function literal captured ----
+//
+// The engine (wthrough.go) roots every store a function literal makes through a
+// captured variable at "an object of unknown origin": inside the literal a
+// FreeVar has no origin, and the fact travels up the call chain unchanged. For
+// C10.6 the only question is whether a written object existed before the call
+// (any non-fresh root) or was created inside it (fresh - the offspring being
+// built). A local table of closures over the receiver (`[]struct{prob; mutate
+// func()}{{.., func() { return g.mutateLinkTrait(1) }}, ..}` iterated by a
+// loop, a bound method value g.mutateGeneReEnable) makes the very same writes
+// as the ladder of direct calls, through the very same object g - which, seen
+// from Species.reproduce, is the fresh duplicate.
+//
+// closureAwareWT re-solves the write-through equations with ONE difference: a
+// fact of a function with captured variables records WHICH captured variable
+// the written object is reached from (root fvRoot(j)) where the address is
+// derived from it by field/element selection and loads only. At a call the
+// caller resolves such a fact exactly like a parameter fact - through the value
+// bound to that variable - provided every instruction that creates the closure
+// (MakeClosure) lies in the calling function itself; the roots are then those
+// of the binding at every creation site, and for a variable captured by
+// reference (a cell) those of every value ever stored to the cell, the cell
+// being written by its function only (no literal stores to it, its address goes
+// nowhere else). In every other case (literal created elsewhere and passed in,
+// cell shared with a writer, address derived in a way not followed) the fact
+// stays at "unknown origin", as before. So every non-fresh write of the
+// original solution is still a non-fresh write here unless it provably goes
+// through what the creating function bound; nothing else changes (returned
+// roots `ret`, callees, direct writes, in-place library calls are the
+// engine's). Other rules that read write-through facts of functions calling
+// local closures can use it the same way.
+
+const fvRootBase = -10 // root of captured variable j: fvRootBase - j
+
+func fvRoot(j int) int { return fvRootBase - j }
+
+type closureWT struct {
+	w     *WriteThrough                        // private fact table W; ret/sums shared with the engine's solution
+	sites map[*ssa.Function][]*ssa.MakeClosure // where each function with captured variables is closed over
+}
+
+// closureAwareWT: see above. base is the engine's solved instance over the same functions.
+func closureAwareWT(p *Prog, base *WriteThrough) *closureWT {
+	c := &closureWT{w: &WriteThrough{P: p, Funcs: base.Funcs, W: map[*ssa.Function][]WT{}, ret: base.ret, sums: base.sums},
+		sites: map[*ssa.Function][]*ssa.MakeClosure{}}
+	var fns []*ssa.Function
+	for f := range base.Funcs {
+		fns = append(fns, f)
+	}
+	sortFuncs(fns)
+	// The compiler-made wrappers of method values (`g.mutateGeneReEnable` used as a func value: a closure over
+	// the receiver that forwards to the method) and of method expressions are callees like any other, but are
+	// not among the source functions: the engine finds no facts for them and a write made by calling a method
+	// value would be lost. They are solved here too (their results stay "unknown" for the engine's roots, whose
+	// function set is not extended).
+	in := map[*ssa.Function]bool{}
+	for _, fn := range fns {
+		in[fn] = true
+	}
+	for i := 0; i < len(fns); i++ {
+		fn := fns[i]
+		Instrs(fn, func(_ *ssa.BasicBlock, _ int, ins ssa.Instruction) {
+			if mc, ok := ins.(*ssa.MakeClosure); ok {
+				if cf, ok := mc.Fn.(*ssa.Function); ok {
+					c.sites[cf] = append(c.sites[cf], mc)
+				}
+			}
+			if ci, ok := ins.(ssa.CallInstruction); ok {
+				for _, callee := range c.w.calleesOf(fn, ci) {
+					if !in[callee] && callee.Synthetic != "" && callee.Blocks != nil {
+						in[callee] = true
+						fns = append(fns, callee)
+					}
+				}
+			}
+		})
+	}
+	c.solve(fns)
+	return c
+}
+
+func sortFuncs(fns []*ssa.Function) {
+	for i := 1; i < len(fns); i++ {
+		for j := i; j > 0 && fns[j].String() < fns[j-1].String(); j-- {
+			fns[j], fns[j-1] = fns[j-1], fns[j]
+		}
+	}
+}
+
+// rootsX: the engine's roots, except that inside a function with captured variables a value selected
+// (fields, elements, loads, joins) from captured variable j has root fvRoot(j) instead of "unknown".
+func (c *closureWT) rootsX(fn *ssa.Function, v ssa.Value) rootSet {
+	if len(fn.FreeVars) == 0 {
+		return c.w.roots(fn, v, 0, map[ssa.Value]bool{})
+	}
+	return c.rootsFV(fn, v, 0, map[ssa.Value]bool{})
+}
+
+func (c *closureWT) rootsFV(fn *ssa.Function, v ssa.Value, depth int, seen map[ssa.Value]bool) rootSet {
+	out := rootSet{}
+	if seen[v] {
+		return out // already contributed to the union
+	}
+	if depth > 30 {
+		out[rootUnknown] = true
+		return out
+	}
+	seen[v] = true
+	through := func(x ssa.Value) rootSet { return c.rootsFV(fn, x, depth+1, seen) }
+	switch x := v.(type) {
+	case *ssa.FreeVar:
+		for j, fv := range fn.FreeVars {
+			if fv == x {
+				out[fvRoot(j)] = true
+			}
+		}
+		if len(out) == 0 {
+			out[rootUnknown] = true
+		}
+		return out
+	case *ssa.FieldAddr:
+		return through(x.X)
+	case *ssa.IndexAddr:
+		return through(x.X)
+	case *ssa.Field:
+		return through(x.X)
+	case *ssa.Index:
+		return through(x.X)
+	case *ssa.Slice:
+		return through(x.X)
+	case *ssa.ChangeType:
+		return through(x.X)
+	case *ssa.Phi:
+		for _, e := range x.Edges {
+			for k := range through(e) {
+				out[k] = true
+			}
+		}
+		return out
+	case *ssa.UnOp:
+		if x.Op == token.MUL {
+			// a load: what a non-fresh holder holds is reachable from the holder's roots (the engine's rule);
+			// a fresh holder (a local of the literal) is left to the engine
+			h := through(x.X)
+			if !h[rootFresh] {
+				return h
+			}
+			for k := range h {
+				if k != rootFresh {
+					out[k] = true
+				}
+			}
+		}
+	}
+	for k := range c.w.roots(fn, v, 0, map[ssa.Value]bool{}) {
+		out[k] = true
+	}
+	return out
+}
+
+// boundRoots: seen from the calling function fn, the roots of what captured variable j of callee holds;
+// "unknown" unless every closure over callee is created in fn and the variable's cell is written by fn alone.
+func (c *closureWT) boundRoots(fn, callee *ssa.Function, j int) rootSet {
+	out := rootSet{}
+	sites := c.sites[callee]
+	if len(sites) == 0 {
+		out[rootUnknown] = true
+		return out
+	}
+	add := func(v ssa.Value) {
+		for k := range c.rootsX(fn, v) {
+			out[k] = true
+		}
+	}
+	for _, mc := range sites {
+		if mc.Parent() != fn || j >= len(mc.Bindings) {
+			out[rootUnknown] = true
+			continue
+		}
+		b := mc.Bindings[j]
+		add(b)
+		cell, isCell := b.(*ssa.Alloc)
+		if !isCell {
+			continue // bound by value (method value) or a captured variable of fn itself (root fvRoot of fn)
+		}
+		for _, ref := range *cell.Referrers() {
+			switch y := ref.(type) {
+			case *ssa.DebugRef:
+			case *ssa.UnOp:
+				if y.Op != token.MUL {
+					out[rootUnknown] = true
+				}
+			case *ssa.Store:
+				if y.Addr == ssa.Value(cell) {
+					add(y.Val)
+				} else {
+					out[rootUnknown] = true // the cell's address is stored somewhere
+				}
+			case *ssa.MakeClosure:
+				inner, _ := y.Fn.(*ssa.Function)
+				for i, bb := range y.Bindings {
+					if bb != ssa.Value(cell) {
+						continue
+					}
+					if inner == nil || i >= len(inner.FreeVars) || closureStores(inner, inner.FreeVars[i], 0) {
+						out[rootUnknown] = true // a literal assigns the variable
+					}
+				}
+			default:
+				out[rootUnknown] = true // the address goes somewhere else
+			}
+		}
+	}
+	return out
+}
+
+func (c *closureWT) solve(fns []*ssa.Function) {
+	w := c.w
+	key := func(t WT) string { return fmt.Sprintf("%d|%s", t.Param, t.What) }
+	for iter := 0; iter < 40; iter++ {
+		changed := false
+		for _, fn := range fns {
+			have := map[string]bool{}
+			for _, t := range w.W[fn] {
+				have[key(t)] = true
+			}
+			addWT := func(t WT) {
+				if !have[key(t)] {
+					have[key(t)] = true
+					w.W[fn] = append(w.W[fn], t)
+					changed = true
+				}
+			}
+			addAt := func(v ssa.Value, what string, pos token.Pos, via []string) {
+				for k := range c.rootsX(fn, v) {
+					if k != rootFresh {
+						addWT(WT{Param: k, What: what, Pos: pos, Via: via})
+					}
+				}
+			}
+			for _, e := range Writes(fn) {
+				what := e.Kind
+				switch e.Kind {
+				case "field":
+					what = "?." + e.Field.Name()
+					if e.Owner != nil {
+						what = e.Owner.Obj().Name() + "." + e.Field.Name()
+					}
+				case "elem":
+					if f := ElemOwner(e); f != nil {
+						what = "elem:" + f.Name()
+					}
+				}
+				addAt(e.Addr, what, e.Instr.Pos(), []string{FuncName(fn)})
+			}
+			Instrs(fn, func(_ *ssa.BasicBlock, _ int, in ssa.Instruction) {
+				ci, ok := in.(ssa.CallInstruction)
+				if !ok {
+					return
+				}
+				args := ci.Common().Args
+				if ci.Common().IsInvoke() {
+					args = append([]ssa.Value{ci.Common().Value}, args...)
+				}
+				name, _ := calleeName(ci.Common())
+				if b, isB := ci.Common().Value.(*ssa.Builtin); isB && b.Name() == "copy" {
+					addAt(args[0], "elem:copy", in.Pos(), []string{FuncName(fn)})
+					return
+				}
+				if name == "sort.Sort" || name == "sort.Stable" || name == "sort.Slice" || name == "sort.Float64s" {
+					addAt(args[0], "elem:sorted-in-place", in.Pos(), []string{FuncName(fn)})
+					return
+				}
+				for _, callee := range w.calleesOf(fn, ci) {
+					for _, t := range w.W[callee] {
+						via := append([]string{FuncName(fn)}, t.Via...)
+						switch {
+						case t.Param <= fvRootBase:
+							for k := range c.boundRoots(fn, callee, fvRootBase-t.Param) {
+								if k != rootFresh {
+									addWT(WT{Param: k, What: t.What, Pos: t.Pos, Via: via})
+								}
+							}
+						case t.Param < 0:
+							addWT(WT{Param: t.Param, What: t.What, Pos: t.Pos, Via: via})
+						case t.Param < len(args):
+							addAt(args[t.Param], t.What, t.Pos, via)
+						}
+					}
+				}
+			})
+		}
+		if !changed {
+			break
+		}
+	}
+}
+
+// c10WrittenContent: the genome-content facts of fn - written through anything that is not created inside the
+// call; with cw == nil from the engine's solution, otherwise from the closure-aware one. nFacts counts all facts of fn.
+func c10WrittenContent(p *Prog, fn *ssa.Function, cw *closureWT) (bad []string, first token.Pos, nFacts int) {
+	describe := func(idx int) string {
+		switch {
+		case idx >= 0 && idx < len(fn.Params):
+			return "parameter " + fn.Params[idx].Name()
+		case idx == rootGlobal:
+			return "a package variable"
+		}
+		return "an object of unknown origin"
+	}
+	var facts []WT
+	if cw == nil {
+		idxs := []int{rootGlobal, rootUnknown}
+		for i := range fn.Params {
+			idxs = append(idxs, i)
+		}
+		for _, idx := range idxs {
+			ws, _ := p.writeSet(fn, idx)
+			for _, k := range sortedKeys(ws) {
+				facts = append(facts, ws[k])
+			}
+		}
+	} else {
+		// every root counts, also a captured variable of fn itself
+		seen := map[string]bool{}
+		byRoot := map[int][]WT{}
+		var order []int
+		for _, t := range cw.w.W[fn] {
+			k := fmt.Sprintf("%d|%s", t.Param, t.What)
+			if seen[k] {
+				continue
+			}
+			seen[k] = true
+			if _, ok := byRoot[t.Param]; !ok {
+				order = append(order, t.Param)
+			}
+			byRoot[t.Param] = append(byRoot[t.Param], t)
+		}
+		for i := 1; i < len(order); i++ {
+			for j := i; j > 0 && order[j] > order[j-1]; j-- {
+				order[j], order[j-1] = order[j-1], order[j]
+			}
+		}
+		for _, root := range order {
+			ts := byRoot[root]
+			for i := 1; i < len(ts); i++ {
+				for j := i; j > 0 && ts[j].What < ts[j-1].What; j-- {
+					ts[j], ts[j-1] = ts[j-1], ts[j]
+				}
+			}
+			facts = append(facts, ts...)
+		}
+	}
+	for _, t := range facts {
+		nFacts++
+		if genomeContentFact(t.What) {
+			if len(bad) == 0 {
+				first = t.Pos
+			}
+			bad = append(bad, fmt.Sprintf("%s through %s (at %s via %s)", t.What, describe(t.Param), p.Pos(t.Pos), strings.Join(t.Via, " -> ")))
+		}
+	}
+	return
+}
+
+// c10OrderKeepingDelete: v is the result of slices.DeleteFunc or slices.Delete - both remove elements and keep the
+// others in their relative order - applied to a list that holds the elements of `what` in their order: the list
+// itself, slices.Clone of it, or append(<empty or nil>, what...); the copy is used by the filter only and the
+// filtered list is only measured (len) and stored.
+func c10OrderKeepingDelete(tm *Termer, v ssa.Value, what string) bool {
+	call, ok := v.(*ssa.Call)
+	if !ok || call.Call.IsInvoke() || len(call.Call.Args) == 0 {
+		return false
+	}
+	name, _ := calleeName(&call.Call)
+	if !(strings.HasPrefix(name, "slices.DeleteFunc[") || strings.HasPrefix(name, "slices.Delete[")) {
+		return false
+	}
+	// the filtered list is measured and stored, nothing else (no reordering in place afterwards)
+	for _, ref := range *call.Referrers() {
+		switch x := ref.(type) {
+		case *ssa.DebugRef:
+		case *ssa.Store:
+			if x.Val != ssa.Value(call) {
+				return false
+			}
+		case *ssa.Call:
+			if b, isB := x.Call.Value.(*ssa.Builtin); !isB || b.Name() != "len" {
+				return false
+			}
+		default:
+			return false
+		}
+	}
+	return c10SameElementsInOrder(tm, call.Call.Args[0], what, 0)
+}
+
+func c10SameElementsInOrder(tm *Termer, v ssa.Value, what string, depth int) bool {
+	if depth > 4 {
+		return false
+	}
+	if tm.Of(v).String() == what {
+		return true
+	}
+	call, ok := v.(*ssa.Call)
+	if !ok || call.Call.IsInvoke() {
+		return false
+	}
+	// a private copy: nothing but its one consumer sees it (no in-place reordering between copy and filter)
+	uses := 0
+	for _, ref := range *call.Referrers() {
+		if _, dbg := ref.(*ssa.DebugRef); !dbg {
+			uses++
+		}
+	}
+	if uses != 1 {
+		return false
+	}
+	name, _ := calleeName(&call.Call)
+	if strings.HasPrefix(name, "slices.Clone[") && len(call.Call.Args) == 1 {
+		return c10SameElementsInOrder(tm, call.Call.Args[0], what, depth+1)
+	}
+	if b, isB := call.Call.Value.(*ssa.Builtin); isB && b.Name() == "append" && len(call.Call.Args) == 2 {
+		// append(empty, xs...): the second argument is the list itself (not a literal of single elements)
+		if _, elems, isApp := appendCall(v); !isApp || len(elems) > 0 {
+			return false
+		}
+		empty := false
+		switch a := call.Call.Args[0].(type) {
+		case *ssa.Const:
+			empty = a.Value == nil
+		case *ssa.MakeSlice:
+			if k, isK := a.Len.(*ssa.Const); isK && k.Value != nil && k.Int64() == 0 {
+				empty = true
+			}
+		case *ssa.Slice:
+			// []T{}[:]: a zero-length array literal
+			if al, isAl := a.X.(*ssa.Alloc); isAl {
+				if arr, isArr := deref(al.Type()).Underlying().(*types.Array); isArr && arr.Len() == 0 {
+					empty = true
+				}
+			}
+		}
+		return empty && c10SameElementsInOrder(tm, call.Call.Args[1], what, depth+1)
+	}
+	return false
 }
